@@ -394,7 +394,7 @@ func cmdCheck(args []string) int {
 		o.Cross, o.CrossMaxQ, o.CrossS = []string{"z3-new"}, 150, 60
 		if thorough {
 			o.Validate = 10
-			o.Cross, o.CrossMaxQ, o.CrossS = []string{"z3-new", "cvc5"}, 1000, 300
+			o.Cross, o.CrossMaxQ, o.CrossS = []string{"z3-new", "cvc5"}, 400, 120
 		}
 		if os.Getenv("VERIF_NOCROSS") != "" {
 			o.Cross = nil
